@@ -123,6 +123,10 @@ def in_fragment(sc):
     trig = [(f, k, r) for f, fl in enumerate(sc["files"], 1) for k, r in enumerate(fl["refs"], 1) if r["inner"]]
     if not trig:
         return True
+    if sc["grepo"]:
+        # a load started from a provider on a metamodel with a global repository takes the outer
+        # load's models into its own resolution (observed, reported; not what C14/C15 are about)
+        return False
     f, k, r = trig[0]
     if not r["swallow"] or ft["step"] not in B_TYPE or sc["files"][ft["f"] - 1]["kind"] != "inner":
         return True
